@@ -118,13 +118,26 @@ Definition do_get_paths (F : fs) (cfg : string) (searches : list sid) (attribute
   do found <- do_find_g L (paths_star L F (default_cfg cfg)) searches;
   mapM (fun s => do x <- Sid L s; get_data_paths F cfg x attributes enc) found.
 
-(* GetFromAll.get: each typed search goes to its own getter instance; types without getter yield nothing *)
+(* GetFromAll.get: the typed searches are grouped by Getter, in order of first appearance, and each group is handed to its
+   Getter's do_get (one search over the whole group: a Sid found by several of its typed searches gives ONE record); types
+   without getter yield nothing.  The routing builds its Getters once per config (the repaired D30), so the GetFromPaths
+   instances are told apart by their path configuration. *)
+Fixpoint add_to_getter_group (cfg : string) (q : sid) (groups : list (string * list sid)) : list (string * list sid) :=
+  match groups with
+  | [] => [(cfg, [q])]
+  | (c0, qs) :: rest => if String.eqb c0 cfg then (c0, qs ++ [q])%list :: rest
+                        else (c0, qs) :: add_to_getter_group cfg q rest
+  end.
+
+Definition group_by_getter (qs : list sid) : list (string * list sid) :=
+  fold_left (fun acc q => match getter_for R (s_type q) false with
+                          | GPaths cfg => add_to_getter_group cfg q acc
+                          | _ => acc
+                          end) qs [].
+
 Definition get_all (F : fs) (search : string) (attributes : list string) (enc : encoder) : outcome (list record) :=
   do qs <- unfold_search L search false false;
-  concat_mapM (fun q => match getter_for R (s_type q) false with
-                        | GPaths cfg => do_get_paths F cfg [q] attributes enc
-                        | _ => Ok []
-                        end) qs.
+  concat_mapM (fun g => do_get_paths F (fst g) (snd g) attributes enc) (group_by_getter qs).
 
 (* GetFromAll.get_data(sid) *)
 Definition get_data_all (F : fs) (s : string) (attributes : list string) (enc : encoder) : outcome record :=
